@@ -112,7 +112,10 @@ package hcl
 //@ requires cleanName: clean(attrName)
 // (unit U15, C06) a result returned without diagnostics carries every mark of the object
 //@ ensures marks: len(ret1) == 0 ==> (forall k iface :: { marked(ret0, k) } marked(obj, k) ==> marked(ret0, k))
-//@ props C06,C19
+// (unit U14, C05, converse clause) no unknown from known operands: an attribute of a wholly known value,
+// returned without diagnostics, is wholly known.
+//@ ensures converse: len(ret1) == 0 && whollyKnown(obj) ==> whollyKnown(ret0)
+//@ props C05,C06,C19
 
 // (unit U15, C06) indexing: a result returned without diagnostics carries every mark of the collection
 // verif:func Index
@@ -121,7 +124,10 @@ package hcl
 // ... and, when collection and key are both known (so that the key decides which element comes back),
 // every mark of the key.
 //@ ensures keymarks: len(ret1) == 0 && isKnownVal(old(collection)) && isKnownVal(old(key)) ==> (forall k iface :: { marked(ret0, k) } marked(old(key), k) ==> marked(ret0, k))
-//@ props C06,C19
+// (unit U14, C05, converse clause) no unknown from known operands: an element of a wholly known collection
+// selected by a wholly known key, returned without diagnostics, is wholly known.
+//@ ensures converse: len(ret1) == 0 && whollyKnown(old(collection)) && whollyKnown(old(key)) ==> whollyKnown(ret0)
+//@ props C05,C06,C19
 
 // ---- diagnostics ----
 // verif:pred hasErr(d Diagnostics) = exists j int :: 0 <= j && j < len(d) && d[j].Severity == 1
